@@ -240,6 +240,14 @@ func work(a lib.Args) {
 		n++
 	}
 	if a.Replay != "" {
+		var cr concReplay
+		lib.ReadReplayCase(a.Replay, &cr)
+		if cr.Phase == "concurrent" {
+			concurrentPhase(cr.AE, 2000, res)
+			lib.WriteShards(a.Out, acc.Header("C11"), "case", nil, res.ShardSize)
+			res.Write(a.Out)
+			return
+		}
 		var c acc.Case
 		lib.ReadReplayCase(a.Replay, &c)
 		c.Rebase(envs[c.Cfg.AE])
@@ -510,6 +518,12 @@ func work(a lib.Args) {
 		res.Count(fmt.Sprintf("allow_no_booking_id:%v", c.Cfg.AE))
 		res.Sample(c)
 		res.Cases = append(res.Cases, *c)
+	}
+	// the concurrent phase (its own fresh instances; judged by the oracle only)
+	if a.Replay == "" {
+		acc.Progress(a.Out, map[string]string{"phase": "concurrent"})
+		concurrentPhase(false, a.Pick(2000, 8000), res)
+		concurrentPhase(true, a.Pick(700, 4000), res)
 	}
 	kept := coq[:0]
 	for _, t := range coq {
